@@ -286,28 +286,81 @@ func themes2(c *mc.Ctx, els []*element, tor [8]ref.Point, lam []*big.Int) {
 	})
 
 	// ---------------------------------------------------------------- T14: size thresholds of the variable-time multiscalar paths
-	sizes := []int{1, 2, 189, 190, 191}
-	if c.Thorough {
-		sizes = append(sizes, 499, 500, 501, 799, 800, 801)
+	// (size, variant) cases: the Straus/Pippenger threshold with three variants; the Pippenger window thresholds
+	// (radix 64 -> 128 at 500, -> 256 at 800) with one variant in the quick tier, three in the thorough tier
+	type tcase struct{ n, variant int }
+	var tcases []tcase
+	for _, n := range []int{1, 2, 189, 190, 191} {
+		for v := 0; v < 3; v++ {
+			tcases = append(tcases, tcase{n, v})
+		}
 	}
-	alphed.Par(c, "multiscalar-thresholds", len(sizes)*3, func(w *mc.W, i int) {
-		n, variant := sizes[i/3], i%3
-		w.Eval("multiscalar-thresholds", n >= 189)
+	for _, n := range []int{499, 500, 501, 799, 800, 801} {
+		for v := 0; v < c.Pick(1, 3); v++ {
+			tcases = append(tcases, tcase{n, v})
+		}
+	}
+	// recoding extremes of every window width w = 6, 7, 8 (signed radix-2^w digits lie in [-2^(w-1), 2^(w-1))):
+	// the window value 2^(w-1) recodes to the most negative digit, 2^(w-1)-1 to the most positive one, 2^w-1 to -1 with
+	// a carry chain; alone, repeated over the whole scalar, and as byte patterns; reduced (< 2^252) and full 255-bit ones
+	type xs struct {
+		v   *big.Int
+		raw bool // through scalar.NewFromBits (not reduced)
+	}
+	var extremes []xs
+	for _, wd := range []uint{6, 7, 8} {
+		half := new(big.Int).Lsh(big.NewInt(1), wd-1)
+		for _, d := range []*big.Int{half, new(big.Int).Sub(half, big.NewInt(1)), new(big.Int).Sub(new(big.Int).Lsh(half, 1), big.NewInt(1)), new(big.Int).Add(half, big.NewInt(1))} {
+			extremes = append(extremes, xs{new(big.Int).Set(d), false})                  // a single window (e.g. the scalars 32, 64, 128)
+			extremes = append(extremes, xs{new(big.Int).Lsh(d, wd*uint(120/wd)), false}) // the same digit in a middle window
+			rep := new(big.Int)
+			for k := uint(0); (k+1)*wd <= 252; k++ {
+				rep.Or(rep, new(big.Int).Lsh(d, k*wd))
+			}
+			extremes = append(extremes, xs{rep, false}) // every window
+		}
+	}
+	for _, b := range []byte{0x80, 0x7f, 0xff, 0x81} {
+		extremes = append(extremes, xs{new(big.Int).SetBytes(bytes.Repeat([]byte{b}, 31)), false})
+		full := bytes.Repeat([]byte{b}, 32)
+		full[0] &= 0x7f // big-endian top byte: keep the value below 2^255
+		extremes = append(extremes, xs{new(big.Int).SetBytes(full), true})
+	}
+	extremes = append(extremes, xs{new(big.Int).Sub(new(big.Int).Lsh(big.NewInt(1), 255), big.NewInt(1)), true}, xs{new(big.Int).Lsh(big.NewInt(1), 254), true},
+		xs{new(big.Int).Sub(ref.L, big.NewInt(1)), false}, xs{new(big.Int).Sub(new(big.Int).Lsh(big.NewInt(1), 252), big.NewInt(1)), false})
+	rawSc := func(v *big.Int) *scalar.Scalar {
+		s, err := scalar.NewFromBits(ref.LE32(v))
+		if err != nil {
+			panic(err)
+		}
+		return s
+	}
+	c.Rep.Extra["multiscalar_recoding_extremes"] = len(extremes)
+	alphed.Par(c, "multiscalar-thresholds", len(tcases), func(w *mc.W, i int) {
+		n, variant := tcases[i].n, tcases[i].variant
+		w.Eval(fmt.Sprintf("multiscalar-thresholds/%d", n), n >= 189)
 		acc := big.NewInt(0)
 		scalars := make([]*scalar.Scalar, n)
 		points := make([]*curve.RistrettoPoint, n)
 		for j := 0; j < n; j++ {
 			e := els[(j*7+variant)%len(els)]
 			var sj *big.Int
+			isRaw := false
 			switch {
 			case j == n-1 && variant == 1:
 				sj = big.NewInt(0) // a zero scalar on the far side
+			case n >= 189 && j >= 3 && j-3 < len(extremes):
+				sj, isRaw = extremes[j-3].v, extremes[j-3].raw // the recoding extremes of every window width
 			case j%5 == 0:
 				sj = new(big.Int).Sub(ref.L, big.NewInt(int64(1+j)))
 			default:
 				sj = ref.SMod(ref.FromLE(mc.Bytes(c.Seed, "c11-msm", j, 32)))
 			}
-			scalars[j] = sc(sj)
+			if isRaw {
+				scalars[j] = rawSc(sj)
+			} else {
+				scalars[j] = sc(sj)
+			}
 			a := e.p.Add(tor[[]int{0, 2, 4, 6}[(j+variant)%4]]) // every coset; the identity element appears as els[0]
 			if j%3 == 0 {
 				points[j] = wrap(edpts.FromRefScaled(a, lam[3+j%2]))
@@ -330,7 +383,11 @@ func themes2(c *mc.Ctx, els []*element, tor [8]ref.Point, lam []*big.Int) {
 			}
 		}
 		// expanded: static / dynamic mixes around the same total
-		for _, ns := range []int{0, 1, n / 2, n - 1, n} {
+		splits := []int{0, 1, n / 2, n - 1, n}
+		if n > 191 && !c.Thorough {
+			splits = []int{0, n / 2, n}
+		}
+		for _, ns := range splits {
 			if ns < 0 || ns > n {
 				continue
 			}
